@@ -769,6 +769,7 @@ func writeTo(conn net.Conn, p []byte, idleTimeout time.Duration) error {
 		if n == 0 || !errors.As(err, &ne) || !ne.Timeout() {
 			return err
 		}
+		verifNote("write.continue", int64(n))
 
 		p = p[n:]
 	}
@@ -802,6 +803,7 @@ func writeBuffersTo(conn net.Conn, p net.Buffers, idleTimeout time.Duration) err
 			return err
 		}
 
+		verifNote("writeBuffers.continue", int64(n))
 		// Don't modify the original buffers.
 		var remaining net.Buffers
 		offset := int(n) // size limited by packetMax
